@@ -121,6 +121,9 @@ def spawn(script, argv, cwd, env, stdin=b'', shim_cfg=None, now=None, tty=False,
                 else:
                     sys.stderr.write(str(c) + '\n')
                     code = 1
+            except KeyboardInterrupt:
+                traceback.print_exc()
+                code = 130
             except BaseException:
                 traceback.print_exc()
                 sys.stderr.write('VERIF-UNCAUGHT\n')
